@@ -720,6 +720,24 @@ def bounds(v, facts, depth=0, _simple_only=False, _fl=None):
                 d = v + g1 + g2
                 if d.is_const():
                     hi = d.c if hi is None else min(hi, d.c)
+    # one fact taken out, the remainder bounded by structure and by the other facts:  v = (v - g) + g >= bound(v - g)  for a fact g >= 0
+    if depth == 0 and 0 < len(fl) <= 48 and (lo is None or hi is None):
+        vat = set(v.t)
+        for g in fl:
+            if not (vat & set(g.t)):
+                continue
+            if lo is None or lo < 0:
+                d = v - g
+                if vat - set(d.t):
+                    rlo, _ = bounds(d, facts, 1, _fl=fl)
+                    if rlo is not None:
+                        lo = rlo if lo is None else max(lo, rlo)
+            if hi is None or hi > 0:
+                d = v + g
+                if vat - set(d.t):
+                    _, rhi = bounds(d, facts, 1, _fl=fl)
+                    if rhi is not None:
+                        hi = rhi if hi is None else min(hi, rhi)
     # term by term
     tlo, thi = v.c, v.c
     for at, coef in v.t.items():
@@ -1034,18 +1052,19 @@ class Event:
 
 
 class State:
-    __slots__ = ("env", "facts", "events", "status", "loops", "pre")
+    __slots__ = ("env", "facts", "events", "status", "loops", "pre", "frames")
 
-    def __init__(self, env=None, facts=(), events=None, loops=()):
+    def __init__(self, env=None, facts=(), events=None, loops=(), frames=()):
         self.env = dict(env or {})
         self.facts = tuple(facts)
         self.events = list(events or [])
-        self.status = "run"       # run | return | raise | continue | break
+        self.status = "run"       # run | return | raise | continue | break | genreturn (a generator inlined into a `for` has finished)
         self.loops = tuple(loops)
         self.pre = {}             # values of helper calls evaluated ahead of the statement that contains them: {id(call node): value}
+        self.frames = tuple(frames)   # environments of the suspended callers (outermost first): closures are evaluated in the frame that defined them
 
     def fork(self):
-        s = State(self.env, self.facts, self.events, self.loops)
+        s = State(self.env, self.facts, self.events, self.loops, self.frames)
         s.status = self.status
         s.pre = dict(self.pre)
         return s
@@ -1066,11 +1085,62 @@ def _decompose(t, pol, out):
                 _decompose(x, pol, out)
 
 
+class _Val(ast.expr):
+    """an expression already evaluated (argument of an inlined generator / partial)"""
+    _fields = ()
+
+    @staticmethod
+    def of(v):
+        n = _Val()
+        n.v = v
+        return n
+
+
+class _YieldBlock(ast.stmt):
+    """`yield value` of a generator inlined into `for target in gen(...): body`: bind the target and run the body of the loop"""
+    _fields = ("target", "value", "body")
+
+
+class _GenReturn(ast.stmt):
+    """`return` of an inlined generator: the iteration is over"""
+    _fields = ()
+
+
+def _is_generator(fnode):
+    return any(isinstance(n, (ast.Yield, ast.YieldFrom)) for n in walk_no_nested(fnode))
+
+
+def _copy_renamed(n, ren, parent):
+    """copy of a subtree with the names of `ren` renamed; positions and module are kept, the copy hangs under `parent`"""
+    if isinstance(n, list):
+        return [_copy_renamed(x, ren, parent) for x in n]
+    if not isinstance(n, ast.AST) or isinstance(n, (ast.expr_context, ast.operator, ast.unaryop, ast.cmpop, ast.boolop)):
+        return n
+    new = n.__class__()
+    for f in n._fields:
+        setattr(new, f, _copy_renamed(getattr(n, f, None), ren, new))
+    for a in ("lineno", "col_offset", "end_lineno", "end_col_offset"):
+        if hasattr(n, a):
+            setattr(new, a, getattr(n, a))
+    new._vparent = parent
+    new._vmod = getattr(n, "_vmod", None)
+    if isinstance(new, ast.Name) and new.id in ren:
+        new.id = ren[new.id]
+    elif isinstance(new, ast.arg) and new.arg in ren:
+        new.arg = ren[new.arg]
+    elif isinstance(new, (ast.FunctionDef, ast.AsyncFunctionDef)) and new.name in ren:
+        new.name = ren[new.name]
+    elif isinstance(new, (ast.Global, ast.Nonlocal)):
+        new.names = [ren.get(x, x) for x in new.names]
+    return new
+
+
 class Engine:
     """run one function; `strings`: names (parameters / locals) that hold strings even though the code does not show it"""
 
-    def __init__(self, mod, fn, strings=(), params=None, follow=None, max_states=MAX_STATES, pins=None):
+    def __init__(self, mod, fn, strings=(), params=None, follow=None, max_states=MAX_STATES, pins=None, follow_if=None):
         self.pins = dict(pins or {})          # {atom: integer}: case split decided by the rule (e.g. the rendered width of `form`)
+        self.follow_if = follow_if            # predicate on a function node: only these are followed (e.g. wrappers without loops)
         self.mod = mod
         self.fn = fn
         self.strings = set(strings)
@@ -1137,7 +1207,7 @@ class Engine:
                 v = None
             finally:
                 self.locals = saved
-            if isinstance(v, (S, Lin)) or _is_k(v) or (isinstance(v, tuple) and v and v[0] == "tuple"):
+            if isinstance(v, (S, Lin)) or _is_k(v) or (isinstance(v, tuple) and v and v[0] in ("tuple", "dict")):
                 self._modconst[name] = v
         return self._modconst[name]
 
@@ -1182,6 +1252,22 @@ class Engine:
         if isinstance(node, (ast.FunctionDef, ast.AsyncFunctionDef, ast.ClassDef)):
             if isinstance(node, ast.FunctionDef):
                 st.env[node.name] = ("func", node.name)
+                self.nested.setdefault(node.name, node)
+                self.defdepth = getattr(self, "defdepth", {})
+                self.defdepth[node.name] = len(st.frames)
+            return [st]
+        if isinstance(node, _YieldBlock):
+            v = self.ev(node.value, st)
+            self.assign(node.target, v, st, node.fornode)
+            outs = self.block(node.body, [st])
+            for o in outs:
+                if o.status == "continue":
+                    o.status = "run"
+                elif o.status == "break":
+                    raise Unsupported("break out of a loop over a generator")
+            return outs
+        if isinstance(node, _GenReturn):
+            st.status = "genreturn"
             return [st]
         if isinstance(node, (ast.Import, ast.ImportFrom, ast.Pass, ast.Global, ast.Nonlocal)):
             return [st]
@@ -1225,49 +1311,126 @@ class Engine:
         return outs
 
     # ------------------------------------------------------------------------------------------------------------ helpers of the same module
-    def inlinable(self, call, st):
-        if self.follow is None or self.depth >= 3 or not isinstance(call, ast.Call):
+    MAX_DEPTH = 4
+
+    def _resolve_callable(self, v, nm, st, depth=0):
+        """value called -> (function node, arguments already bound, keywords already bound, closure key) or None"""
+        if depth > 3:
             return None
-        if any(isinstance(a, ast.Starred) for a in call.args) or any(k.arg is None for k in call.keywords):
+        if isinstance(v, tuple) and v:
+            if v[0] == "func":
+                f = self.nested.get(v[1])
+                return (f, (), {}, v[1]) if f is not None else None
+            if v[0] == "lambda":
+                lam = getattr(self, "lambdas", {}).get(v[1])
+                if lam is None:
+                    return None
+                f = getattr(lam, "_c13_def", None)
+                if f is None:
+                    ret = ast.copy_location(ast.Return(value=lam.body), lam)
+                    f = ast.copy_location(ast.FunctionDef(name="<lambda>", args=lam.args, body=[ret], decorator_list=[], returns=None, type_comment=None), lam)
+                    f._vparent = getattr(lam, "_vparent", None)
+                    f._vmod = getattr(lam, "_vmod", None)
+                    ret._vparent, ret._vmod = f, f._vmod
+                    f._c13_closure = True
+                    lam._c13_def = f
+                return (f, (), {}, v[1])
+            if v[0] == "partial":
+                r = self._resolve_callable(v[1], None, st, depth + 1)
+                if r is None:
+                    return None
+                kw = dict(r[2])
+                kw.update(dict(v[3]))
+                return (r[0], tuple(r[1]) + tuple(v[2]), kw, r[3])
+            if v[0] == "sym" and v[1] in (self.follow or {}) and v[1] not in self.locals:
+                return (self.follow[v[1]], (), {}, None)          # a helper of the module passed around as a value
             return None
-        if isinstance(call.func, ast.Name):
-            nm = call.func.id
-            v = st.env.get(nm)
-            if isinstance(v, tuple) and v and v[0] == "func":
-                return self.nested.get(v[1])
-            if nm not in st.env and nm not in self.locals:
-                return self.follow.get(nm)
+        if v is None and nm is not None and nm not in self.locals:
+            f = (self.follow or {}).get(nm)
+            return (f, (), {}, None) if f is not None else None
         return None
 
-    def inline(self, call, fnode, st):
-        """run the callee's body on the argument values; returns [(caller state, returned value)] - one per path of the callee"""
-        args = [self.ev(a, st) for a in call.args]
-        kws = {k.arg: self.ev(k.value, st) for k in call.keywords}
+    def _callee(self, call, st):
+        if self.follow is None or self.depth >= self.MAX_DEPTH or not isinstance(call, ast.Call):
+            return None
+        if any(k.arg is None for k in call.keywords):
+            return None
+        for a in call.args:
+            if isinstance(a, ast.Starred):
+                v = st.env.get(a.value.id) if isinstance(a.value, ast.Name) else None
+                if not (isinstance(v, tuple) and v[:1] == ("tuple",) and not any(isinstance(x, tuple) and x[:1] == ("star",) for x in v[1])):
+                    return None
+        if isinstance(call.func, ast.Name):
+            nm = call.func.id
+            return self._resolve_callable(st.env.get(nm), nm if nm not in st.env else None, st)
+        return None
+
+    def inlinable(self, call, st):
+        """the function a call runs, when its body is followed (a generator function is not run by its call)"""
+        r = self._callee(call, st)
+        if r is None or _is_generator(r[0]) or (self.follow_if is not None and not self.follow_if(r[0])):
+            return None
+        return r
+
+    def _generator_of(self, call, st):
+        r = self._callee(call, st)
+        if r is None or not _is_generator(r[0]) or (self.follow_if is not None and not self.follow_if(r[0])):
+            return None
+        return r
+
+    def _closure_env(self, fnode, key, st):
+        """the environment a nested function / lambda sees besides its parameters: that of the frame that defined it"""
+        if not (fnode in self.nested.values() or getattr(fnode, "_c13_closure", False)):
+            return {}
+        dd = getattr(self, "defdepth", {}).get(key)
+        if dd is None or dd >= len(st.frames):
+            return st.env
+        return st.frames[dd]
+
+    def _bind(self, call, target, st):
+        """parameter values of a call: positional (bound ones first), starred concrete lists, keywords, defaults"""
+        fnode, pre_args, pre_kws, key = target
+        args = list(pre_args)
+        for a in call.args:
+            v = self.ev(a, st)
+            if isinstance(v, tuple) and v[:1] == ("star",) and isinstance(v[1], tuple) and v[1][:1] == ("tuple",):
+                args.extend(v[1][1])
+            else:
+                args.append(v)
+        kws = dict(pre_kws)
+        kws.update({k.arg: self.ev(k.value, st) for k in call.keywords})
         a = fnode.args
         pos = a.posonlyargs + a.args
         if len(args) > len(pos) and not a.vararg:
             raise Unsupported(f"call of {fnode.name}: too many arguments")
-        env = {}
-        # nested functions see the enclosing scope
-        if fnode in self.nested.values():
-            env.update(st.env)
+        bound = {}
         for p_, v in zip(pos, args):
-            env[p_.arg] = v
+            bound[p_.arg] = v
         if a.vararg:
-            env[a.vararg.arg] = ("tuple", tuple(args[len(pos):]))
+            bound[a.vararg.arg] = ("tuple", tuple(args[len(pos):]))
         for k, v in kws.items():
-            env[k] = v
+            bound[k] = v
         dpos = pos[len(pos) - len(a.defaults):]
         for p_, dv in zip(dpos, a.defaults):
-            if p_.arg not in env or (p_.arg in st.env and p_.arg not in kws and pos.index(p_) >= len(args) and fnode in self.nested.values()):
-                env[p_.arg] = self.ev(dv, State())
+            if p_.arg not in bound:
+                bound[p_.arg] = self.ev(dv, State())
         for p_, dv in zip(a.kwonlyargs, a.kw_defaults):
-            if p_.arg not in kws and dv is not None:
-                env[p_.arg] = self.ev(dv, State())
+            if p_.arg not in bound and dv is not None:
+                bound[p_.arg] = self.ev(dv, State())
+        if a.kwarg and a.kwarg.arg not in bound:
+            bound[a.kwarg.arg] = ("op", "dict", ())
         for p_ in pos + a.kwonlyargs:
-            if p_.arg not in env:
+            if p_.arg not in bound:
                 raise Unsupported(f"call of {fnode.name}: parameter {p_.arg} not bound")
-        sub = State(env, st.facts, st.events, st.loops)
+        return bound, args, kws
+
+    def inline(self, call, target, st):
+        """run the callee's body on the argument values; returns [(caller state, returned value)] - one per path of the callee"""
+        fnode, _, _, key = target
+        bound, args, kws = self._bind(call, target, st)
+        env = dict(self._closure_env(fnode, key, st))
+        env.update(bound)
+        sub = State(env, st.facts, st.events, st.loops, st.frames + (st.env,))
         self.emit(sub, "enter", call, func=fnode.name, args=args, kws=kws)
         saved_locals, saved_nested = self.locals, self.nested
         self.locals = {n.id for n in walk_no_nested(fnode) if isinstance(n, ast.Name) and isinstance(n.ctx, ast.Store)} | set(env)
@@ -1283,7 +1446,7 @@ class Engine:
             self.locals, self.nested = saved_locals, saved_nested
         res = []
         for o in outs:
-            c = State(st.env, o.facts, o.events, st.loops)
+            c = State(st.env, o.facts, o.events, st.loops, st.frames)
             c.pre = dict(st.pre)
             val = ("k", None)
             if o.status == "return":
@@ -1294,11 +1457,126 @@ class Engine:
                 c.status = "run"
             elif o.status == "raise":
                 c.status = "raise"
-            elif o.status in ("continue", "break"):
+            elif o.status in ("continue", "break", "genreturn"):
                 raise Unsupported("loop control leaving an inlined function")
             self.emit(c, "leave", call, func=fnode.name, value=val)
             res.append((c, val))
         return res
+
+    # ------------------------------------------------------------------------------------------------------------ generators
+    def _for_generator(self, node, target, st):
+        """`for T in gen(args): BODY` with `gen` a generator function of the module: the generator's body is run in the caller's frame (its
+        names made unique) and every `yield v` becomes `T = v; BODY`.  None when the generator uses a construct this cannot express."""
+        fnode, _, _, key = target
+        if self.depth >= self.MAX_DEPTH:
+            return None
+        self.genseq = getattr(self, "genseq", 0) + 1
+        tag = f"${self.genseq}"
+        try:
+            bound, args, kws = self._bind(node.iter, target, st)
+        except Unsupported:
+            return None
+        names = set(bound) | {n.id for n in walk_no_nested(fnode) if isinstance(n, ast.Name) and isinstance(n.ctx, ast.Store)}
+        names |= {n.name for n in walk_no_nested(fnode) if isinstance(n, (ast.FunctionDef, ast.AsyncFunctionDef))}
+        ren = {nm: nm + tag for nm in names}
+        body = _copy_renamed(list(fnode.body), ren, fnode)
+        ok = [True]
+
+        def conv(stmts, tail):
+            out = []
+            for i, s_ in enumerate(stmts):
+                last = tail and i == len(stmts) - 1
+                if isinstance(s_, ast.Expr) and isinstance(s_.value, ast.Yield):
+                    yb = _YieldBlock()
+                    yb.target, yb.body = node.target, node.body
+                    yb.value = s_.value.value if s_.value.value is not None else ast.copy_location(ast.Constant(value=None), s_)
+                    yb.fornode = node
+                    ast.copy_location(yb, s_)
+                    yb._vparent, yb._vmod = getattr(s_, "_vparent", None), getattr(s_, "_vmod", None)
+                    out.append(yb)
+                    continue
+                if isinstance(s_, ast.Return):
+                    if s_.value is not None:
+                        ok[0] = False
+                    if not last:
+                        gr = ast.copy_location(_GenReturn(), s_)
+                        gr._vparent, gr._vmod = getattr(s_, "_vparent", None), getattr(s_, "_vmod", None)
+                        out.append(gr)
+                    continue
+                if isinstance(s_, (ast.If,)):
+                    s_.body, s_.orelse = conv(s_.body, last), conv(s_.orelse, last)
+                elif isinstance(s_, (ast.For, ast.While)):
+                    s_.body, s_.orelse = conv(s_.body, False), conv(s_.orelse, False)
+                elif isinstance(s_, (ast.With,)):
+                    s_.body = conv(s_.body, False)
+                elif isinstance(s_, ast.Try):
+                    s_.body, s_.orelse, s_.finalbody = conv(s_.body, False), conv(s_.orelse, False), conv(s_.finalbody, False)
+                if isinstance(s_, (ast.FunctionDef, ast.AsyncFunctionDef, ast.ClassDef)):
+                    out.append(s_)
+                    continue
+                out.append(s_)
+            return out
+        body = conv(body, True)
+        # any yield left (inside an expression, `yield from`, a yield in an except handler) is outside what this expresses
+        for b in body:
+            for n in ast.walk(b):
+                if isinstance(n, _YieldBlock):
+                    continue
+                if isinstance(n, (ast.Yield, ast.YieldFrom, ast.Await)):
+                    ok[0] = False
+        if not ok[0]:
+            return None
+        # the caller's loop body must not `break` out of the generator
+        def has_break(stmts):
+            for s_ in stmts:
+                if isinstance(s_, ast.Break):
+                    return True
+                if isinstance(s_, (ast.If, ast.With, ast.Try)):
+                    parts = list(getattr(s_, "body", [])) + list(getattr(s_, "orelse", [])) + list(getattr(s_, "finalbody", []))
+                    for h in getattr(s_, "handlers", []):
+                        parts += h.body
+                    if has_break(parts):
+                        return True
+            return False
+        if has_break(node.body):
+            return None
+        closure = self._closure_env(fnode, key, st)
+        pre = []
+        for nm, v in bound.items():
+            vn = _Val()
+            vn.v = v
+            ast.copy_location(vn, node.iter)
+            tn = ast.copy_location(ast.Name(id=ren[nm], ctx=ast.Store()), node.iter)
+            asg = ast.copy_location(ast.Assign(targets=[tn], value=vn), node.iter)
+            for x in (vn, tn, asg):
+                x._vparent, x._vmod = getattr(node.iter, "_vparent", None), getattr(node.iter, "_vmod", None)
+            pre.append(asg)
+        if closure is not st.env:
+            for k, v in closure.items():
+                st.env.setdefault(k, v)
+        saved_locals, saved_nested = self.locals, self.nested
+        self.locals = set(self.locals) | set(ren.values())
+        self.nested = dict(self.nested)
+        for n in body:
+            if isinstance(n, ast.FunctionDef):
+                self.nested[n.name] = n
+        self.emit(st, "enter", node.iter, func=fnode.name, args=args, kws=kws)
+        self.depth += 1
+        try:
+            outs = self.block(pre + body, [st])
+        finally:
+            self.depth -= 1
+            self.locals, self.nested = saved_locals, saved_nested
+        live, rest = [], []
+        for o in outs:
+            if o.status in ("run", "genreturn"):
+                o.status = "run"
+                live.append(o)
+            else:
+                rest.append(o)
+        if node.orelse:
+            live = self.block(node.orelse, live)
+        return live + rest
 
     def helper_forks(self, node, st):
         """states in which every call of a followed helper inside the expression(s) has been evaluated (one state per path of the helper)"""
@@ -1340,13 +1618,26 @@ class Engine:
     def simple_forks(self, node, st):
         """states in which every conditional expression of the statement is decided"""
         nodes = node if isinstance(node, list) else [node]
-        ifexps = [n for root in nodes for n in ast.walk(root) if isinstance(n, ast.IfExp)]
+        # conditional expressions, and their older spelling  (b, a)[test]
+        ifexps = [n.test for root in nodes for n in ast.walk(root) if isinstance(n, ast.IfExp)]
+        ifexps += [n.slice for root in nodes for n in ast.walk(root) if isinstance(n, ast.Subscript) and _is_test_node(n.slice)
+                   and isinstance(n.value, (ast.Tuple, ast.List)) and len(n.value.elts) == 2]
         states = [st]
-        for ie in ifexps:
+        # lookups in a literal table keyed by conditions:  TABLE[wide, extra]
+        for root in nodes:
+            for n in ast.walk(root) if isinstance(root, ast.AST) else ():
+                if isinstance(n, ast.Subscript) and isinstance(n.value, (ast.Name, ast.Dict)) and not isinstance(n.slice, ast.Slice):
+                    try:
+                        b = self.ev(n.value, st) if isinstance(n.value, ast.Name) else None
+                    except Unsupported:
+                        b = None
+                    if isinstance(n.value, ast.Dict) or (isinstance(b, tuple) and b[:1] == ("dict",)):
+                        ifexps += [_Val.of(c) for c in self._key_tests(n.slice, st)]
+        for ie_test in ifexps:
             nxt = []
             for s in states:
                 try:
-                    t = self.ev(ie.test, s)
+                    t = self.ev(ie_test, s)
                 except Unsupported:
                     nxt.append(s)
                     continue
@@ -1360,6 +1651,15 @@ class Engine:
                 nxt.extend((a, b))
             states = nxt
         return states
+
+    def _key_tests(self, sl, st):
+        """the truth values among the components of a lookup key"""
+        try:
+            v = self.index(sl, st)
+        except Unsupported:
+            return []
+        comps = list(v[1]) if isinstance(v, tuple) and v[:1] == ("tuple",) else [v]
+        return [c for c in comps if isinstance(c, tuple) and c[:1] in (("cmp",), ("not",), ("bool",), ("in",))]
 
     def simple(self, node, st):
         if isinstance(node, ast.Assign):
@@ -1575,10 +1875,51 @@ class Engine:
                     st.add_fact(("cmp", "LtE", lin(new), old), True)
         return pre
 
+    def _concrete_iter(self, it):
+        """the values a concrete iterable produces (range with constant bounds, literal tuple / list), else None"""
+        if isinstance(it, tuple) and it[:1] == ("range",) and all(is_int_const(x) for x in it[1:]) and ival(it[3]) != 0:
+            return [Lin(c=x) for x in range(ival(it[1]), ival(it[2]), ival(it[3]))][:65]
+        if isinstance(it, tuple) and it[:1] == ("tuple",) and not any(isinstance(x, tuple) and x[:1] == ("star",) for x in it[1]):
+            return list(it[1])
+        return None
+
+    def _for_unrolled(self, node, st, vals):
+        """a loop over a concrete iterable, pass by pass (no loop symbols: what the body does to a list or a counter is known exactly)"""
+        live, done = [st], []
+        for v in vals:
+            nxt = []
+            for s in live:
+                self.assign(node.target, v, s, node)
+                for o in self.block(node.body, [s]):
+                    if o.status in ("run", "continue"):
+                        o.status = "run"
+                        nxt.append(o)
+                    elif o.status == "break":
+                        o.status = "run"
+                        done.append(o)          # `else` of the loop is skipped
+                    else:
+                        done.append(o)
+            live = nxt
+            if len(live) + len(done) > self.max_states:
+                raise Unsupported(f"more than {self.max_states} paths")
+        if node.orelse:
+            live = self.block(node.orelse, live)
+        return live + done
+
     def for_(self, node, st):
         outs = []
+        gen = self._generator_of(node.iter, st) if isinstance(node.iter, ast.Call) else None
+        if gen is not None:
+            r = self._for_generator(node, gen, st)
+            if r is not None:
+                return r
         for s in self.simple_forks(node.iter, st):
             it = self.ev(node.iter, s)
+            vals = self._concrete_iter(it)
+            if vals is not None and len(vals) <= 12 and (len(vals) <= 2 or not any(
+                    isinstance(n, (ast.If, ast.While, ast.For, ast.Try, ast.IfExp, ast.With, ast.Break, ast.Continue)) for b in node.body for n in ast.walk(b))):
+                outs.extend(self._for_unrolled(node, s, vals))
+                continue
             self.loopseq += 1
             lid = self.loopseq
             names, incs = self._assigned(node.body + node.orelse)
@@ -1606,7 +1947,7 @@ class Engine:
             merged.sort(key=lambda e: e.seq)
             # paths that return / raise inside the body end there
             for e_state in ends:
-                if e_state.status in ("return", "raise"):
+                if e_state.status in ("return", "raise", "genreturn"):
                     e_state.loops = post.loops
                     outs.append(e_state)
             for e_state in ends:
@@ -1645,11 +1986,15 @@ class Engine:
             if is_int_const(step) and ival(step) > 0:
                 st.add_fact(("cmp", "GtE", lin(v), lo), True)
                 st.add_fact(("cmp", "Lt", lin(v), hi), True)
+                if ival(step) > 1 and _divisible(lin(hi) - lin(lo), ival(step)):
+                    st.add_fact(("cmp", "GtE", lin(hi) - ival(step), lin(v)), True)      # the values are lo + k * step < hi, and step divides hi - lo
             return lin(v)
         if isinstance(it, tuple) and it and it[0] == "op" and it[1] == "zip":
             return ("tuple", tuple(self._iter_elem(a, k, st, lid) for a in it[2]))
         if isinstance(it, tuple) and it and it[0] == "op" and it[1] == "enumerate" and it[2]:
-            start = it[2][1] if len(it[2]) > 1 else Lin()
+            start = it[2][1] if len(it[2]) > 1 else (dict(it[3]).get("start", Lin()) if len(it) > 3 else Lin())
+            st.add_fact(("cmp", "GtE", lin(k), Lin()), True)
+            st.add_fact(("not", ("cmp", "GtE", lin(k), self.length(it[2][0], st))), True)
             return ("tuple", (lin(k) + lin(start), self._iter_elem(it[2][0], k, st, lid)))
         if isinstance(it, tuple) and it and it[0] == "op" and it[1] == ".items" and len(it[2]) == 1:
             key = ("elem", ("op", ".keys", it[2]), lin(k))
@@ -1664,11 +2009,25 @@ class Engine:
         outs = []
         self.loopseq += 1
         lid = self.loopseq
-        names, incs = self._assigned(node.body + node.orelse)
+        test_node, body_nodes = node.test, list(node.body)
+        if not node.orelse:
+            # `while A: if C: break; REST`  is  `while A and not C: REST`
+            while len(body_nodes) > 1 and isinstance(body_nodes[0], ast.If) and not body_nodes[0].orelse and len(body_nodes[0].body) == 1 \
+                    and isinstance(body_nodes[0].body[0], ast.Break):
+                c = body_nodes[0].test
+                negc = c.operand if isinstance(c, ast.UnaryOp) and isinstance(c.op, ast.Not) else ast.copy_location(ast.UnaryOp(op=ast.Not(), operand=c), c)
+                if isinstance(test_node, ast.Constant) and test_node.value is True:
+                    test_node = negc
+                elif isinstance(test_node, ast.BoolOp) and isinstance(test_node.op, ast.And):
+                    test_node = ast.copy_location(ast.BoolOp(op=ast.And(), values=list(test_node.values) + [negc]), test_node)
+                else:
+                    test_node = ast.copy_location(ast.BoolOp(op=ast.And(), values=[test_node, negc]), test_node)
+                body_nodes = body_nodes[1:]
+        names, incs = self._assigned(body_nodes + node.orelse)
         s = st
         pre = self._havoc(s, names, incs, f"L{lid}")
-        for s1 in self.simple_forks(node.test, s):
-            t = self.ev(node.test, s1)
+        for s1 in self.simple_forks(test_node, s):
+            t = self.ev(test_node, s1)
             post = s1.fork()
             body = s1
             body.loops = body.loops + (lid,)
@@ -1676,8 +2035,9 @@ class Engine:
             ends = []
             if r is not False:
                 body.add_fact(t, True)
-                self.emit(body, "while", node, test=t, loop=lid, pre=pre, env={nm: body.env.get(nm) for nm in names})
-                ends = self.block(node.body, [body])
+                wev = self.emit(body, "while", node, test=t, loop=lid, pre=pre, env={nm: body.env.get(nm) for nm in names}, iter=None, target=None)
+                ends = self.block(body_nodes, [body])
+                self._counted(wev, t, ends, names, pre, lid)
             merged = list(post.events)
             seen = {e.seq for e in merged}
             for e_state in ends:
@@ -1689,7 +2049,7 @@ class Engine:
                         merged.append(e)
             merged.sort(key=lambda e: e.seq)
             for e_state in ends:
-                if e_state.status in ("return", "raise"):
+                if e_state.status in ("return", "raise", "genreturn"):
                     e_state.loops = post.loops
                     outs.append(e_state)
             # a path that leaves by `break` goes on with what it knows at the break (the pass it is in stands for any pass)
@@ -1710,7 +2070,7 @@ class Engine:
                     op = "GtE" if incs[nm] > 0 else "LtE"
                     post.add_fact(("cmp", op, lin(post.env[nm]), pre[nm]), True)
             try:
-                t2 = self.ev(node.test, post)
+                t2 = self.ev(test_node, post)
                 post.add_fact(t2, False)
             except Unsupported:
                 pass
@@ -1720,6 +2080,34 @@ class Engine:
             else:
                 outs.append(post)
         return outs
+
+    def _counted(self, wev, t, ends, names, pre, lid):
+        """`c = lo; while c < hi: ...; c += k` (every pass, no other way out) is `for c in range(lo, hi, k)`: recorded on the `while` event as
+        iter / target, so that rules read both spellings the same way"""
+        if any(e.status == "break" for e in ends):
+            return
+        normal = [e for e in ends if e.status in ("run", "continue")]
+        if not normal:
+            return
+        for nm in sorted(names):
+            symv = lin(("sym", f"{nm}@L{lid}"))
+            steps = {(e.env.get(nm) - symv) if isinstance(e.env.get(nm), Lin) else None for e in normal}
+            if len(steps) != 1:
+                continue
+            step = next(iter(steps))
+            if step is None or not is_int_const(step) or ival(step) < 1 or not isinstance(pre.get(nm), Lin):
+                continue
+            hi = None
+            if isinstance(t, tuple) and t[:1] == ("not",) and isinstance(t[1], tuple) and t[1][:2] == ("cmp", "GtE") and t[1][2] == symv:
+                hi = t[1][3]                    # c < hi
+            elif isinstance(t, tuple) and t[:2] == ("cmp", "GtE") and t[3] == symv and isinstance(t[2], Lin):
+                hi = t[2] + 1                   # c <= hi - 1
+            if not isinstance(hi, Lin) or any("@L%d" % lid in show(a) for a in hi.t):
+                continue
+            wev.d["iter"] = ("range", pre[nm], hi, step)
+            wev.d["target"] = symv
+            wev.d["counter"] = nm
+            return
 
     # ------------------------------------------------------------------------------------------------------------ expressions
     def index(self, sl, st):
@@ -1747,6 +2135,43 @@ class Engine:
         if isinstance(idx, tuple) and idx and idx[0] == "sl":
             return ("slice", base, idx[1], idx[2], idx[3])
         return ("elem", base, idx)
+
+    def _slice_of_slice(self, base, idx):
+        """x[a:h][lo:hi:s] -> x[a + lo : ... : s] for a contiguous inner slice and indices counted from the front (as everywhere in this engine, an index
+        that is not a negative constant counts from the front)"""
+        _, b0, a, h1, s1 = base
+        _, lo, hi, step = idx
+        neg = lambda v: isinstance(v, Lin) and v.is_const() and v.c < 0
+        if s1 != Lin(c=1) or not isinstance(lo, Lin) or not isinstance(a, Lin) or neg(lo) or neg(a) or not isinstance(step, Lin):
+            return None
+        if _is_k(hi) and hi[1] is None:
+            nh = h1
+        elif isinstance(hi, Lin) and not neg(hi):
+            if _is_k(h1) and h1[1] is None:
+                nh = a + hi
+            elif isinstance(h1, Lin) and not neg(h1):
+                nh = mk_min([a + hi, h1], ())
+            else:
+                return None
+        else:
+            return None
+        return ("slice", b0, a + lo, nh, step)
+
+    def _key_norm(self, idx, st):
+        """a lookup key with its truth-valued components decided where the facts decide them"""
+        if isinstance(idx, tuple) and idx[:1] == ("tuple",):
+            return ("tuple", tuple(self._key_norm(x, st) for x in idx[1]))
+        if isinstance(idx, tuple) and idx[:1] in (("cmp",), ("not",), ("bool",), ("in",)):
+            r = self.decide(idx, st)
+            return ("k", r) if r is not None else idx
+        return idx
+
+    def _lookup(self, table, idx, st):
+        key = self._key_norm(idx, st)
+        for k, v in table[1]:
+            if k == key:
+                return v
+        return ("elem", table, key)
 
     STR_METHODS = {".replace", ".rstrip", ".lstrip", ".strip", ".upper", ".lower", ".ljust", ".rjust", ".center", ".expandtabs", ".zfill", ".join", ".format"}
 
@@ -1788,6 +2213,15 @@ class Engine:
         name = {ast.BitAnd: "&", ast.BitOr: "|", ast.BitXor: "^", ast.LShift: "<<", ast.RShift: ">>", ast.Div: "/", ast.Pow: "**",
                 ast.MatMult: "@"}.get(type(op), type(op).__name__)
         a2, b2 = lin(a), lin(b)
+        # shifts and low-bit masks are arithmetic:  x >> k = x // 2**k,  x << k = x * 2**k,  x & (2**k - 1) = x % 2**k,  x & ~(2**k - 1) = x - x % 2**k
+        if name in ("<<", ">>") and is_int_const(b2) and 0 <= ival(b2) <= 30 and not is_int_const(a2):
+            return floordiv(a2, 2 ** ival(b2)) if name == ">>" else a2.scale(2 ** ival(b2))
+        if name == "&" and (is_int_const(a2) != is_int_const(b2)):
+            x, k = (a2, ival(b2)) if is_int_const(b2) else (b2, ival(a2))
+            if k > 0 and (k + 1) & k == 0:
+                return mod(x, k + 1)
+            if k < 0 and (-k) & (-k - 1) == 0:
+                return x - mod(x, -k)
         if name in ("&", "|", "^", "<<", ">>") and is_int_const(a2) and is_int_const(b2):
             x = atom_eval(("op", name, (a2, b2)), {})
             if x is not None:
@@ -1915,6 +2349,17 @@ class Engine:
         if isinstance(node, ast.Subscript):
             base = self.ev(node.value, st)
             idx = self.index(node.slice, st)
+            if _is_test_node(node.slice) and isinstance(base, tuple) and base[:1] == ("tuple",) and len(base[1]) == 2:
+                r = self.decide(idx, st)              # (b, a)[test]  is  a if test else b
+                if r is not None:
+                    return base[1][1] if r else base[1][0]
+                return ("ite", idx, base[1][1], base[1][0])
+            if isinstance(base, tuple) and base[:1] == ("dict",):
+                return self._lookup(base, idx, st)
+            if isinstance(idx, tuple) and idx[:1] == ("sl",) and isinstance(base, tuple) and base[:1] == ("slice",):
+                r = self._slice_of_slice(base, idx)
+                if r is not None:
+                    return r
             return self._elem(base, idx)
         if isinstance(node, ast.BinOp):
             a = self.ev(node.left, st)
@@ -1935,6 +2380,8 @@ class Engine:
                 return -lin(v)
             if isinstance(node.op, ast.UAdd):
                 return v
+            if isinstance(v, Lin):
+                return -v - 1          # ~x == -x - 1
             return ("op", "~", (v,))
         if isinstance(node, ast.Compare):
             vals = [self.ev(node.left, st)] + [self.ev(c, st) for c in node.comparators]
@@ -1995,6 +2442,8 @@ class Engine:
             return ("tuple", tuple(self.ev(e, st) for e in node.elts))
         if isinstance(node, ast.Set):
             return ("set", tuple(sorted((self.ev(e, st) for e in node.elts), key=repr)))
+        if isinstance(node, ast.Dict) and node.keys and all(k is not None for k in node.keys):
+            return ("dict", tuple((self.ev(k, st), self.ev(v, st)) for k, v in zip(node.keys, node.values)))
         if isinstance(node, ast.Starred):
             return ("star", self.ev(node.value, st))
         if isinstance(node, ast.Call):
@@ -2037,7 +2486,11 @@ class Engine:
         if isinstance(node, ast.Lambda):
             self.lambdas = getattr(self, "lambdas", {})
             self.lambdas[id(node)] = node
+            self.defdepth = getattr(self, "defdepth", {})
+            self.defdepth[id(node)] = len(st.frames)
             return ("lambda", id(node))
+        if isinstance(node, _Val):
+            return node.v
         if isinstance(node, (ast.ListComp, ast.GeneratorExp, ast.SetComp, ast.DictComp, ast.Lambda, ast.Dict, ast.Await, ast.Yield, ast.YieldFrom)):
             return ("op", "<" + type(node).__name__ + ">", (("k", ast.dump(node)),))
         raise Unsupported(f"expression {type(node).__name__}")
@@ -2102,6 +2555,29 @@ class Engine:
         kws = {k.arg: self.ev(k.value, st) for k in node.keywords if k.arg is not None}
         res = self._call_value(node, st, name, recv, attr, args, kws)
         self.emit(st, "call", node, name=name, recv=recv, attr=attr, args=args, kws=kws, value=res)
+        # other spellings of `f.write(text)`
+        if name == "print" and "file" in kws and not any(isinstance(a, tuple) and a[:1] == ("star",) for a in args):
+            sep, end = kws.get("sep", S((("lit", " "),))), kws.get("end", S((("lit", "\n"),)))
+            if isinstance(sep, S) and isinstance(end, S) and all(self.is_str(a) for a in args):
+                text = S(())
+                for i, a in enumerate(args):
+                    text = text + (sep if i else S(())) + as_S(a)
+                self.emit(st, "call", node, name=None, recv=kws["file"], attr="write", args=[text + end], kws={}, value=("k", None))
+        elif attr == "writelines" and len(args) == 1 and isinstance(args[0], tuple) and args[0][:1] == ("tuple",) and all(self.is_str(a) for a in args[0][1]):
+            for a in args[0][1]:
+                self.emit(st, "call", node, name=None, recv=recv, attr="write", args=[as_S(a)], kws={}, value=("k", None))
+        # a list held by a local: append / extend / insert are followed (inside a loop that is not unrolled the name is a loop symbol, not a list)
+        if attr in ("append", "extend", "insert") and isinstance(node.func.value, ast.Name) and not kws:
+            cur = st.env.get(node.func.value.id)
+            if isinstance(cur, tuple) and cur[:1] == ("tuple",) and not any(isinstance(x, tuple) and x[:1] == ("star",) for x in cur[1]):
+                new = None
+                if attr == "append" and len(args) == 1:
+                    new = ("tuple", cur[1] + (args[0],))
+                elif attr == "extend" and len(args) == 1 and isinstance(args[0], tuple) and args[0][:1] == ("tuple",):
+                    new = ("tuple", cur[1] + args[0][1])
+                elif attr == "insert" and len(args) == 2 and is_int_const(args[0]) and 0 <= ival(args[0]) <= len(cur[1]):
+                    new = ("tuple", cur[1][:ival(args[0])] + (args[1],) + cur[1][ival(args[0]):])
+                st.env[node.func.value.id] = new if new is not None else ("op", "list-after-" + attr, (cur,) + tuple(args))
         return res
 
     def _call_value(self, node, st, name, recv, attr, args, kws):
@@ -2125,7 +2601,11 @@ class Engine:
         if name in ("np.size", "numpy.size") and nargs == 1:
             return lin(("len", origin(args[0])))
         if name in ("zip", "enumerate"):
-            return ("op", name, tuple(args))
+            return ("op", name, tuple(args)) if not kws else ("op", name, tuple(args), tuple(sorted(kws.items())))
+        if name in IDENT_CALLS and name.split(".")[-1].startswith("atleast_") and nargs > 1 and not kws:
+            return ("tuple", tuple(("op", name, (a,)) for a in args))      # np.atleast_1d(t, d) -> [atleast_1d(t), atleast_1d(d)]
+        if name in ("functools.partial", "partial") and nargs >= 1 and isinstance(args[0], tuple) and args[0][:1] in (("sym",), ("func",), ("lambda",), ("partial",)):
+            return ("partial", args[0], tuple(args[1:]), tuple(sorted(kws.items())))
         if name == "divmod" and nargs == 2 and is_int_const(lin(args[1])) and ival(lin(args[1])) > 0:
             k = ival(lin(args[1]))
             return ("tuple", (floordiv(args[0], k), mod(args[0], k)))
@@ -2306,6 +2786,24 @@ class Engine:
                 nargs = nargs + 1
         self.emit(st, "format", node, template=tmpl, items=items, args=args, nfields=nfields, nargs=nargs, value=res)
         return res
+
+
+def _divisible(v, k):
+    """the integer linear form is a multiple of k whatever its (integer) atoms are"""
+    v = lin(v)
+    if v.c.denominator != 1 or int(v.c) % k:
+        return False
+    for at, coef in v.t.items():
+        if coef.denominator != 1 or int(coef) % k:
+            return False
+        if not (isinstance(at, tuple) and at and at[0] in ("sym", "len", "dim", "fd", "flen", "min", "max")):
+            return False
+    return True
+
+
+def _is_test_node(n):
+    """an expression whose value is a truth value"""
+    return isinstance(n, (ast.Compare, ast.BoolOp)) or (isinstance(n, ast.UnaryOp) and isinstance(n.op, ast.Not))
 
 
 def _num(v):
